@@ -31,6 +31,14 @@ Definition bind (b : bindings) (n : str) (v : value) : bindings :=
 (* ---------- syntax ---------- *)
 Inductive loop_field := LIndex | LIndex0 | LFirst | LLast | LLength.
 
+(* the binary operators other than and / or / == (docs "Math", "Comparisons", "Concatenation",
+   "`in` checking"); `a not in b` is `not (a in b)` *)
+Inductive binop :=
+| BMul | BDiv | BFloorDiv | BMod | BPlus | BMinus | BPower
+| BLt | BGt | BLe | BGe | BNe
+| BConcat                                  (* a ~ b *)
+| BIn.                                     (* a in b *)
+
 Inductive expr :=
 | EConst (v : value)
 | EVar (n : str)
@@ -41,7 +49,10 @@ Inductive expr :=
 | EOr (a b : expr)
 | EEq (a b : expr)
 | ETest (e : expr) (name : str)          (* e is name *)
-| EFilter (e : expr) (name : str) (kw : list (str * expr)).   (* e | name(k=v, ...) *)
+| EFilter (e : expr) (name : str) (kw : list (str * expr))    (* e | name(k=v, ...) *)
+| EBin (op : binop) (a b : expr)         (* a op b: both operands are evaluated, left first *)
+| ENeg (e : expr)                        (* -e *)
+| ETernary (c a b : expr).               (* a if c else b: only the chosen branch is evaluated *)
 
 Definition filter_call := (str * list (str * expr))%type.
 
@@ -181,7 +192,9 @@ Record builtins := {
   b_test : str -> value -> option (res bool);                               (* None: no such test *)
   b_filter : str -> value -> list (str * value) -> option (res value * bool);   (* result, marks-safe *)
   b_format : value -> str;
-  b_escape : str -> str }.
+  b_escape : str -> str;
+  b_binop : binop -> value -> value -> res value;     (* arithmetic, ordering, !=, ~, in *)
+  b_neg : value -> res value }.
 
 Definition mark_safe_value (v : value) : value :=
   match v with VStr s _ => VStr s true | v => v end.
@@ -258,6 +271,17 @@ Section Sem.
                    | ROk kws => apply_filter name v kws
                    | RErr x => RErr x
                    end
+        | RErr x => RErr x
+        end
+    | EBin op a b =>
+        match eval a en with
+        | ROk va => match eval b en with ROk vb => b_binop B op va vb | RErr x => RErr x end
+        | RErr x => RErr x
+        end
+    | ENeg e1 => match eval e1 en with ROk v => b_neg B v | RErr x => RErr x end
+    | ETernary c a b =>
+        match eval c en with
+        | ROk v => if is_truthy v then eval a en else eval b en
         | RErr x => RErr x
         end
     end.
